@@ -21,6 +21,15 @@ Fixpoint hex_bytes (s : string) : list N :=
   | _ => []
   end.
 
+(* the same with runs of zero bytes written as `z` + four hex digits (the count): a double array is mostly zero units *)
+Fixpoint hexz_bytes (s : string) : list N :=
+  match s with
+  | String "z" (String a (String b (String c (String d t)))) =>
+      repeat 0 (N.to_nat (4096 * hex_digit a + 256 * hex_digit b + 16 * hex_digit c + hex_digit d)) ++ hexz_bytes t
+  | String a (String b t) => (16 * hex_digit a + hex_digit b) :: hexz_bytes t
+  | _ => []
+  end.
+
 Definition le32 (b0 b1 b2 b3 : N) : N := b0 + 256 * b1 + 65536 * b2 + 16777216 * b3.
 
 (* CowArray::from_bytes: the trie section of the file as little-endian u32 units *)
